@@ -205,6 +205,7 @@ func shards(tier string) []string {
 			out = append(out, fmt.Sprintf("nest/%d/%d", oi, ii))
 		}
 	}
+	out = append(out, largeShards()...)
 	return out
 }
 
@@ -225,8 +226,12 @@ func texts(n int, lead string, f func(string)) {
 func run(c *core.Ctx) {
 	var pi, n, k int
 	short := false
-	c.Res.Bound = fmt.Sprintf("text length <= %d over {a,b,\\n}; %d prefixes; all compositions; every stop point; <=1 empty write; nested writers: %d x %d prefixes, every sequence of <= %d writes of %d chunks to the inner or the outer writer, every stop point", maxLen(c.Tier), len(prefixes), len(nestPrefixes), len(nestPrefixes), nestedDepth(c.Tier), len(nestChunks))
+	c.Res.Bound = fmt.Sprintf("text length <= %d over {a,b,\\n}; %d prefixes; all compositions; every stop point; <=1 empty write; nested writers: %d x %d prefixes, every sequence of <= %d writes of %d chunks to the inner or the outer writer, every stop point; large writes: texts of 4096, 4097, 8192, 8193 (thorough also 4095, 8191, 12289) bytes (around the block sizes 4096 and 8192) with line breaks never, always, every 7th and every 4096th byte, in one call and split at byte 4096, 2 prefixes, every stop point (every third beyond 9000 output bytes, all next to a multiple of 4096)", maxLen(c.Tier), len(prefixes), len(nestPrefixes), len(nestPrefixes), nestedDepth(c.Tier), len(nestChunks))
 	var oi, ii int
+	if _, err := fmt.Sscanf(c.Shard, "large/%d/%d", &oi, &ii); err == nil {
+		runLarge(c, oi, ii)
+		return
+	}
 	if _, err := fmt.Sscanf(c.Shard, "nest/%d/%d", &oi, &ii); err == nil {
 		runNested(c, nestPrefixes[oi], nestPrefixes[ii])
 		return
@@ -344,7 +349,7 @@ func replay(tier string, raw json.RawMessage) (bool, string, string) {
 func init() {
 	core.Register(&core.Prop{
 		ID: "C20", Variant: "plain", Shards: shards, Run: run, Replay: replay,
-		Rule:        "every (prefix, text over {a,b,\\n}, composition into Write calls incl. one empty Write, stop point B of the underlying writer) is one execution of the real indent.NewWriter against a reference indenter with a source-index map; nested writers (an indenting writer whose underlying writer is another indenting writer, as the tree printers build them): every sequence of writes within the depth bound to the inner or the outer writer, switching in the middle of lines, with the bottom writer stopping at every byte - the bottom must hold the outer rendering of the stream made of the inner rendering and the direct writes, after every call, and a faulting call must return the caller bytes that reached the bottom; states = distinct executions (generator is injective); transitions = Write calls issued; non-trivial = a fault strictly inside the output or more than one Write call",
+		Rule:        "every (prefix, text over {a,b,\\n}, composition into Write calls incl. one empty Write, stop point B of the underlying writer) is one execution of the real indent.NewWriter against a reference indenter with a source-index map; nested writers (an indenting writer whose underlying writer is another indenting writer, as the tree printers build them): every sequence of writes within the depth bound to the inner or the outer writer, switching in the middle of lines, with the bottom writer stopping at every byte - the bottom must hold the outer rendering of the stream made of the inner rendering and the direct writes, after every call, and a faulting call must return the caller bytes that reached the bottom; large writes (arguments around 4096 and 8192 bytes, where a writer might process its argument in blocks) with the underlying writer stopping at every position; states = distinct executions (generator is injective); transitions = Write calls issued; non-trivial = a fault strictly inside the output or more than one Write call",
 		Assumptions: []string{"the underlying writer fails at most once and the caller stops writing after the first error", "texts over a 3-symbol alphabet stand for all texts: the writer only distinguishes line breaks from other bytes"},
 	})
 }
